@@ -211,12 +211,12 @@ ExecStmt(p, M, s) ==
                  ELSE Enter(SetLp(M, [k |-> "do", again |-> FALSE]), "body", 0))
       [] s.k = "for" ->
            IF en.lp.k = "for" THEN
-               \* back from the body: increment, test
+               \* back from the body: increment, test (this is the NEXT statement: its line)
                LET l == LocOf(s.v, cx, 0) IN
-               OnEval(p, M, l, ln, LAMBDA loc :
+               OnEval(p, M, l, s.nextln, LAMBDA loc :
                  LET cur == ReadLoc(cx, loc, s.v.t)
                      nx == Conv(BinOp("add", cur, en.lp.step), s.v.t)
-                 IN IF Bad(nx) THEN Fail(M, nx, ln)
+                 IN IF Bad(nx) THEN Fail(M, nx, s.nextln)
                     ELSE LET t == ForTest(nx, en.lp.lim, en.lp.step)
                              M1 == WriteLoc(M, loc, nx)
                          IN IF Bad(t) THEN Fail(M, t, ln)
